@@ -1,7 +1,7 @@
 (* Proof scripts of the statements of Props/C20.v and Props/C21.v that need more than one step
    (Props files only contain statements closed by [exact]). *)
-From TxV Require Import Core.Base Model.PegSyntax Model.Peg Model.KwDefs Gen.SrcKw Model.Kw
-     Proofs.PegCongr Proofs.PegInv Proofs.KwProofs Proofs.KwCheckProofs Proofs.KwInv Proofs.KwWitness.
+From TxV Require Import Core.Base Model.PegSyntax Model.Peg Model.Build Model.KwDefs Gen.SrcKw Model.Kw
+     Proofs.PegCongr Proofs.PegInv Proofs.KwProofs Proofs.KwCheckProofs Proofs.KwInv Proofs.KwBuild Proofs.KwModel Proofs.KwWitness.
 
 Lemma stmt_C20_compile : forall wordc digitc autokwd t pat,
   spec_icase (compile_lit wordc digitc autokwd true t) = true /\
@@ -128,4 +128,58 @@ Lemma stmt_C21_terminal_invariant : forall pt g input orc memo,
 Proof.
   intros pt g input orc memo Ht cfg fuel r Hrun.
   exact (res_okb_In pt r (run_ok pt g input orc memo Ht cfg fuel r Hrun)).
+Qed.
+
+(* ---- model level: metamodel tables dumped by tools/mmdump.py *)
+Definition mm_begin : list ninfo := [IOther;
+  IRule RCommon [77;111;100;101;108]%N [mkAttr [110;97;109;101]%N M1 true false [73;68]%N false];
+  ITerm []%N 0;
+  IAsgn [110;97;109;101]%N OpPlain;
+  ITerm [73;68]%N 0;
+  ITerm []%N 0;
+  ITerm [69;79;70]%N 0].
+Definition mm_in : list ninfo := [IOther;
+  IRule RCommon [77;111;100;101;108]%N [mkAttr [120]%N M1 true false [73;68]%N false;mkAttr [121]%N M1 true false [73;68]%N false];
+  IOther;
+  IOther;
+  ITerm []%N 0;
+  IAsgn [120]%N OpPlain;
+  ITerm [73;68]%N 0;
+  IAsgn [121]%N OpPlain;
+  ITerm []%N 0;
+  ITerm [69;79;70]%N 0].
+Definition no_grp : nat -> nat -> option (nat * nat) := fun _ _ => None.
+
+(* `'begin' name=ID 'end'`, ignore_case: "begin x end" / "BEGIN x End" give the same object *)
+Lemma stmt_C20_model_structure_nonvacuous :
+  exists r v,
+    run g_begin cfg_default (orc_of tbl_begin) false 50 in_begin1 = Parsed r /\
+    base_matches_unchanged g_begin in_begin1 in_begin2 r /\
+    build g_begin mm_begin in_begin1 no_grp true false r = BOk v /\
+    build g_begin mm_begin in_begin2 no_grp true false r = BOk v /\
+    v = VObj [77;111;100;101;108]%N 0 11 [([110;97;109;101]%N, VTerm [73;68]%N [120]%N)].
+Proof.
+  eexists. eexists. split; [vm_compute; reflexivity|]. split.
+  - intros nid p len Hin Hb. vm_compute in Hin.
+    repeat (destruct Hin as [E|Hin]; [injection E as <- <- <-; first [discriminate Hb | reflexivity]|]). destruct Hin.
+  - split; [vm_compute; reflexivity|]. split; vm_compute; reflexivity.
+Qed.
+
+(* `('in' x=ID | y=ID) ';'` on "in x;": the plain and the autokwd table build the same object *)
+Lemma stmt_C21_same_model_objects_nonvacuous :
+  kw_case_ok ascii_word ascii_digit ascii_lower in_in1 tbl_in1_plain tbl_in1_kw g_in_plain g_in_kw = true /\
+  no_glue_ok ascii_word ascii_digit ascii_lower in_in1 g_in_plain = true /\
+  replaced_are_exact g_in_plain g_in_kw /\
+  exists r v,
+    run g_in_plain cfg_default (orc_of tbl_in1_plain) false 50 in_in1 = Parsed r /\
+    build g_in_plain mm_in in_in1 no_grp true false r = BOk v /\
+    build g_in_kw mm_in in_in1 no_grp true false (fr (kw_supf g_in_plain g_in_kw) r) = BOk v /\
+    v = VObj [77;111;100;101;108]%N 0 5 [([120]%N, VTerm [73;68]%N [120]%N); ([121]%N, VDefault [73;68]%N)].
+Proof.
+  split; [vm_compute; reflexivity|]. split; [vm_compute; reflexivity|]. split.
+  - intros nid nd nd' t oid o' Hn Hn' Hk Hk'.
+    do 10 (destruct nid as [|nid]; [vm_compute in Hn, Hn'; injection Hn as <-; injection Hn' as <-;
+                                     cbn in Hk, Hk'; try discriminate; injection Hk as _ <-; reflexivity|]).
+    vm_compute in Hn. destruct nid; discriminate.
+  - eexists. eexists. split; [vm_compute; reflexivity|]. split; [vm_compute; reflexivity|]. split; vm_compute; reflexivity.
 Qed.
